@@ -171,7 +171,9 @@ def validate_known(k):
     env = {}
     try:
         exec("import pyubx2\nfrom pyubx2 import *\nimport pyubx2.ubxhelpers as ubxhelpers\n"
-             "from pyubx2.ubxhelpers import *\nimport io, struct\n", env)
+             "from pyubx2.ubxhelpers import *\nimport io, struct\n"
+             "def raises(exc, fn):\n"
+             "    try:\n        fn()\n    except exc:\n        return True\n    except Exception:\n        return False\n    return False\n", env)
         res = eval(w["python"], env)
         return bool(res), "witness re-run: defect present" if res else "witness re-run: defect absent"
     except Exception as e:
